@@ -83,14 +83,14 @@ type AttrEntry struct {
 }
 
 type Schema struct {
-	Structs  []StructDef `json:"structs"`
-	Dyns     []DynKind   `json:"dyns"`
-	Ops      []OpEntry   `json:"ops"`
-	Objects  []ObjEntry  `json:"objects"`
-	Attrs    []AttrEntry `json:"attrs"`
-	AllAttrs []string    `json:"all_attrs"`
+	Structs  []StructDef    `json:"structs"`
+	Dyns     []DynKind      `json:"dyns"`
+	Ops      []OpEntry      `json:"ops"`
+	Objects  []ObjEntry     `json:"objects"`
+	Attrs    []AttrEntry    `json:"attrs"`
+	AllAttrs []string       `json:"all_attrs"`
 	Roots    map[string]int `json:"roots"` // "RequestMessage" / "ResponseMessage" -> dyn id
-	Problems []string    `json:"problems"`
+	Problems []string       `json:"problems"`
 
 	structIDs map[reflect.Type]int
 	dynIDs    map[reflect.Type]int
@@ -108,19 +108,19 @@ var (
 
 // customNames: the hand-written codecs the Lean model knows (Model/Custom.lean), by Go type.
 var customNames = map[string]string{
-	"kmip.RequestBatchItem":          "RequestBatchItem",
-	"kmip.ResponseBatchItem":         "ResponseBatchItem",
-	"kmip.CredentialValue":           "CredentialValue",
-	"kmip.Credential":                "Credential",
-	"kmip.UnknownPayload":            "UnknownPayload",
-	"kmip.Attribute":                 "Attribute",
-	"kmip.KeyBlock":                  "KeyBlock",
-	"kmip.KeyValue":                  "KeyValue",
-	"kmip.KeyMaterial":               "KeyMaterial",
-	"payloads.GetResponsePayload":    "GetResponsePayload",
+	"kmip.RequestBatchItem":           "RequestBatchItem",
+	"kmip.ResponseBatchItem":          "ResponseBatchItem",
+	"kmip.CredentialValue":            "CredentialValue",
+	"kmip.Credential":                 "Credential",
+	"kmip.UnknownPayload":             "UnknownPayload",
+	"kmip.Attribute":                  "Attribute",
+	"kmip.KeyBlock":                   "KeyBlock",
+	"kmip.KeyValue":                   "KeyValue",
+	"kmip.KeyMaterial":                "KeyMaterial",
+	"payloads.GetResponsePayload":     "GetResponsePayload",
 	"payloads.RegisterRequestPayload": "RegisterRequestPayload",
-	"payloads.ImportRequestPayload":  "ImportRequestPayload",
-	"payloads.ExportResponsePayload": "ExportResponsePayload",
+	"payloads.ImportRequestPayload":   "ImportRequestPayload",
+	"payloads.ExportResponsePayload":  "ExportResponsePayload",
 }
 
 func implEnc(t reflect.Type) bool {
